@@ -339,6 +339,7 @@ type Net struct {
 	mu      sync.Mutex
 	targets map[string]func(client net.Addr) (net.Conn, error)
 	Dials   []string // every address dialled, in order
+	Listens []string // every listener opened by the code under test
 	// WithTimeout: whether the dial in progress came through DialTimeout (the active health checker) or Dial
 	WithTimeout bool
 	nextPort    int
@@ -384,4 +385,52 @@ func DialTimeout(network, addr string, _ time.Duration) (net.Conn, error) {
 		return nil, errors.New("vnet: no network in this execution")
 	}
 	return Current.dial(network, addr, true)
+}
+
+// ---- UDP listeners opened by the code under test (SOCKS5 ASSOCIATE) -------------------------
+
+// UDPListener stands in for *net.UDPConn returned by net.ListenUDP: it never receives
+// anything (the harness only needs to know that it was opened) and unblocks on Close.
+type UDPListener struct {
+	mu     sync.Mutex
+	addr   *net.UDPAddr
+	closed bool
+}
+
+func ListenUDP(network string, laddr *net.UDPAddr) (*UDPListener, error) {
+	if Current == nil {
+		return nil, errors.New("vnet: no network in this execution")
+	}
+	vsched.Point("listenudp")
+	Current.mu.Lock()
+	Current.Listens = append(Current.Listens, network)
+	Current.nextPort++
+	port := Current.nextPort
+	Current.mu.Unlock()
+	return &UDPListener{addr: &net.UDPAddr{IP: net.IPv4(10, 0, 0, 1), Port: port}}, nil
+}
+
+func (l *UDPListener) LocalAddr() net.Addr { return l.addr }
+func (l *UDPListener) ReadFromUDP(b []byte) (int, *net.UDPAddr, error) {
+	vsched.Yield("readfromudp", func() bool { return l.closed })
+	return 0, nil, net.ErrClosed
+}
+func (l *UDPListener) WriteTo(b []byte, a net.Addr) (int, error) { return len(b), nil }
+func (l *UDPListener) Close() error {
+	vsched.Point("udplistener.Close")
+	l.mu.Lock()
+	l.closed = true
+	l.mu.Unlock()
+	return nil
+}
+
+// Listen stands in for net.Listen in rewritten code (recorded, never connected to).
+func Listen(network, addr string) (net.Listener, error) {
+	if Current == nil {
+		return nil, errors.New("vnet: no network in this execution")
+	}
+	Current.mu.Lock()
+	Current.Listens = append(Current.Listens, network+"/"+addr)
+	Current.mu.Unlock()
+	return NewListener(TCP("10.0.0.1", 1080)), nil
 }
